@@ -258,9 +258,9 @@ def case_volume_model(case):
     mur = sym_array('mu_r', shape, positive=True) if with_mu else None
     model = _Duck()
     model.case = aniso if aniso != 'iso' else 'isotropic'
-    model.grid = _Duck()
-    model.grid.h = h
-    model.grid.origin = np.array([0., 0., 0.])
+    # a real BaseMesh (the grid type the solver hands around), so that a
+    # VolumeModel that keeps/mutates the caller's grid is observable
+    model.grid = E.meshes.BaseMesh(h, (0., 0., 0.))
     model.shape = tuple(shape)
     model._properties = ['property_x', 'property_y', 'property_z',
                          'mu_r', 'epsilon_r']
@@ -275,6 +275,9 @@ def case_volume_model(case):
                                           dict(epsilon_0=eps0, mu_0=mu0))))
     try:
         vm = E.models.VolumeModel(model, sfield)
+        # second construction from the SAME model/grid objects: must not
+        # depend on the first (no state kept in or written to the inputs)
+        vm_again = E.models.VolumeModel(model, sfield)
     finally:
         E.models.sp = real_sp
     grp = f"VolumeModel shape={shape} aniso={aniso} eps={with_eps} " \
@@ -292,8 +295,10 @@ def case_volume_model(case):
             want = -s*mu0*V*(sg[idx]+(s*eps0*eps[idx] if with_eps else 0))
             got = getattr(vm, 'eta_'+d)[idx]
             conj.append(eq(got, want))
+            conj.append(eq(getattr(vm_again, 'eta_'+d)[idx], want))
         wz = V/mur[idx] if with_mu else V
         conj.append(eq(vm.zeta[idx], wz))
+        conj.append(eq(vm_again.zeta[idx], wz))
     t1 = time.time()
     vd, m = c.valid(z3.And(*conj), label='volume model')
     obs = [ob(f"eta_xyz, zeta formulas on {int(np.prod(shape))} cells",
@@ -321,6 +326,169 @@ def case_volume_model(case):
                             aniso=aniso, eps=with_eps, mu=with_mu,
                             domain=domain) if not alias_ok else None)))
     return obs
+
+
+def case_solve_state(case):
+    """solve() hands the kernels the coefficients of the CURRENT model and
+    source field: a history on one Model object (in-place index assignment,
+    setter assignment, Laplace/frequency domain of equal |f|, mu_r/epsilon_r
+    added later) is compared, call by call, with a fresh VolumeModel of a
+    freshly constructed Model holding the same values."""
+    aniso = case[-1]
+    E = shadow.load()
+    c = set_ctx(Ctx())
+    State.OBJECT_ALLOC = True
+    grp = f"solve() uses the current model's coefficients ({aniso})"
+    shape = (3, 2, 2)
+    grid = E.meshes.TensorMesh([np.array([1., 2., 1.]), np.array([2., 1.]),
+                                np.array([1., 3.])], (0., 0., 0.))
+    names = ['property_x'] + (['property_y'] if aniso in (
+        'HTI', 'triaxial') else []) + (['property_z'] if aniso in (
+            'VTI', 'triaxial') else [])
+    cur = {n: sym_array('a'+n[-1], shape, positive=True) for n in names}
+    model = E.models.Model(grid, mapping='Conductivity',
+                           **{n: v.copy() for n, v in cur.items()})
+    rec = []
+    saved = (E.solver.multigrid, E.solver.krylov, E.solver.residual)
+
+    def snap(vm):
+        return {k: np.array(getattr(vm, k), dtype=object, copy=True)
+                for k in ('eta_x', 'eta_y', 'eta_z', 'zeta')}
+
+    def fake_mg(vmodel, sfield, efield, var, **kw):
+        rec.append(snap(vmodel))
+        var.exit_message = 'CONVERGED'
+        var.l2 = 0.0
+    E.solver.multigrid = fake_mg
+    E.solver.krylov = fake_mg
+    E.solver.residual = lambda *a, **k: 1.0
+
+    def sfield(freq):
+        f = E.fields.Field(grid, frequency=freq)
+        f.fx[1, 1, 1] = 1.0
+        return f
+    obs = []
+    steps = []
+    try:
+        def call(label, freq, **kw):
+            n0 = len(rec)
+            E.solver.solve(model, sfield(freq), sslsolver=False,
+                           semicoarsening=False, linerelaxation=False,
+                           verb=0, **kw)
+            # oracle: fresh Model object with the same current values
+            extra = {}
+            if model.mu_r is not None:
+                extra['mu_r'] = np.array(model.mu_r, dtype=object,
+                                         copy=True).view(symx.SymArray)
+            if model.epsilon_r is not None:
+                extra['epsilon_r'] = np.array(
+                    model.epsilon_r, dtype=object, copy=True).view(
+                        symx.SymArray)
+            fresh = E.models.Model(grid, mapping='Conductivity', **{
+                n: np.array(getattr(model, n), dtype=object,
+                            copy=True).view(symx.SymArray)
+                for n in names}, **extra)
+            want = snap(E.models.VolumeModel(fresh, sfield(freq)))
+            steps.append((label, rec[n0] if len(rec) > n0 else None, want))
+        call('first solve, frequency domain f=1', 1.0)
+        b = Q.var('b')
+        c.assume(symx.B(b.t > 0))
+        model.property_x[1, 1, 1] = b                     # index assignment
+        call('after in-place index assignment', 1.0)
+        newx = sym_array('n', shape, positive=True)
+        model.property_x = newx                           # setter
+        call('after setter assignment', 1.0)
+        call('Laplace domain s=1 (same |f|)', -1.0)
+        call('frequency domain again', 1.0)
+        if len(names) > 1:
+            getattr(model, names[-1])[0, 0, 1] = b
+            call(f'after index assignment to {names[-1]}', 1.0)
+        call('another frequency f=2', 2.0)
+        model.property_x[2, 1, 0] = b
+        call('frequency f=1 again after a change made while f=2 was '
+             'current', 1.0)
+        for label, got, want in steps:
+            t1 = time.time()
+            bad = got is None
+            if not bad:
+                for k in want:
+                    for a_, b_ in zip(got[k].flat, want[k].flat):
+                        a_, b_ = symx.Qc._co(a_), symx.Qc._co(b_)
+                        if symx.qt(a_.re).eq(symx.qt(b_.re)) and \
+                                symx.qt(a_.im).eq(symx.qt(b_.im)):
+                            continue
+                        if c.valid(z3.And(
+                                symx.qt(a_.re) == symx.qt(b_.re),
+                                symx.qt(a_.im) == symx.qt(b_.im)),
+                                label='state')[0] != 'held':
+                            bad = True
+                            break
+                    if bad:
+                        break
+            obs.append(ob(
+                f"{label}: eta_x/y/z and zeta handed to the solver == "
+                f"VolumeModel of a fresh Model with the current values",
+                'cex' if bad else 'held', group=grp, cls='LIN',
+                seconds=time.time()-t1,
+                key="solve() uses stale volume-averaged coefficients "
+                    "(history on one Model object)",
+                cex=dict(kind='solve_state', aniso=aniso, step=label)
+                if bad else None))
+    finally:
+        E.solver.multigrid, E.solver.krylov, E.solver.residual = saved
+    if c.stats['forks']:
+        return [ob("harness: unexpected fork", 'error', group=grp)]
+    return obs
+
+
+def _replay_solve_state(cex):
+    """Real solves on one Model object through the same history vs fresh
+    Model objects."""
+    import emg3d
+    rng = np.random.default_rng(4)
+    grid = emg3d.TensorMesh([np.array([1., 2., 1., 2.])*50]*3, (0, 0, 0))
+    shape = grid.shape_cells
+    aniso = cex['aniso']
+    names = ['property_x'] + (['property_y'] if aniso in (
+        'HTI', 'triaxial') else []) + (['property_z'] if aniso in (
+            'VTI', 'triaxial') else [])
+    model = emg3d.Model(grid, mapping='Conductivity', **{
+        n: rng.uniform(.5, 2, shape) for n in names})
+    src = (110., 120., 130., 20., 10.)
+    so = dict(sslsolver=False, semicoarsening=False, linerelaxation=False,
+              verb=0, tol=1e-10, maxit=200)
+    msgs = []
+
+    def call(label, freq):
+        sf = emg3d.get_source_field(grid, src, freq)
+        e = emg3d.solve(model, sf, **so)
+        fresh = emg3d.Model(grid, mapping='Conductivity', **{
+            n: getattr(model, n).copy() for n in names})
+        e2 = emg3d.solve(fresh, emg3d.get_source_field(grid, src, freq),
+                         **so)
+        d = np.abs(e.field-e2.field).max()/np.abs(e2.field).max()
+        if d > 1e-6:
+            msgs.append(f"{label}: field differs from a fresh model's by "
+                        f"{d:.2e}")
+    try:
+        call('first', 1.0)
+        model.property_x[1, 1, 1] = 7.5
+        call('after in-place index assignment', 1.0)
+        model.property_x = rng.uniform(.5, 2, shape)
+        call('after setter assignment', 1.0)
+        call('Laplace', -1.0)
+        call('frequency again', 1.0)
+        if len(names) > 1:
+            getattr(model, names[-1])[0, 0, 1] = 9.0
+            call('after index assignment (anisotropy)', 1.0)
+        call('f=2', 2.0)
+        model.property_x[2, 1, 0] = 11.0
+        call('f=1 after change during f=2', 1.0)
+    except Exception as e:      # noqa
+        msgs.append(f"raised {e!r}"[:300])
+    return bool(msgs), ("real solve() history on one Model object: " +
+                        ('; '.join(msgs[:3]) or 'always equal to a fresh '
+                         'model'))
 
 
 def case_wrappers(case):
@@ -465,6 +633,8 @@ def replay(cex):
     kind = cex['kind']
     if kind == 'volume_model':
         return _replay_volume_model(cex)
+    if kind == 'solve_state':
+        return _replay_solve_state(cex)
     if kind not in ('operator', 'boundary', 'symmetry', 'gradient'):
         return True, f"{kind}: structural counterexample (no numeric replay)"
     shape = tuple(cex['shape'])
@@ -539,6 +709,10 @@ def _replay_volume_model(cex):
     freq = -7.5e3 if cex['domain'] == 'laplace' else 2.5e6
     sfield = emg3d.Field(grid, frequency=freq)
     vm = emg3d.models.VolumeModel(model, sfield)
+    # and a second time from one BaseMesh-based model object
+    bmodel = emg3d.Model(emg3d.meshes.BaseMesh(h, (0, 0, 0)), **kw)
+    emg3d.models.VolumeModel(bmodel, sfield)
+    vm2 = emg3d.models.VolumeModel(bmodel, sfield)
     s = 7.5e3 if cex['domain'] == 'laplace' else 2j*np.pi*2.5e6
     V = (h[0][:, None, None]*h[1][None, :, None]*h[2][None, None, :])
     worst = 0.0
@@ -546,10 +720,13 @@ def _replay_volume_model(cex):
         sg = kw.get('property_'+d, kw['property_x'])
         want = -s*mu_0*V*(sg + (s*epsilon_0*kw['epsilon_r'] if cex['eps']
                                 else 0))
-        got = getattr(vm, 'eta_'+d)
-        worst = max(worst, float(np.abs(got-want).max()/np.abs(want).max()))
+        for v_ in (vm, vm2):
+            got = getattr(v_, 'eta_'+d)
+            worst = max(worst, float(np.abs(got-want).max() /
+                                     np.abs(want).max()))
     wz = V/kw['mu_r'] if cex['mu'] else V
-    worst = max(worst, float(np.abs(vm.zeta-wz).max()/np.abs(wz).max()))
+    for v_ in (vm, vm2):
+        worst = max(worst, float(np.abs(v_.zeta-wz).max()/np.abs(wz).max()))
     return worst > 1e-9, (f"real VolumeModel ({an}, eps_r={cex['eps']}, "
                           f"mu_r={cex['mu']}, {cex['domain']} domain) vs "
                           f"-s mu0 V (sigma + s eps0 eps_r), V/mu_r: max "
@@ -596,7 +773,9 @@ def main(tier):
             [(case_symmetry, x) for x in cases_sym] +
             [(case_gradient, x) for x in cases_grad] +
             [(case_volume_model, x) for x in cases_vm] +
-            [(case_wrappers, x) for x in cases_wr])
+            [(case_wrappers, x) for x in cases_wr] +
+            [(case_solve_state, ((9, 9, 9), a)) for a in ('iso', 'VTI',
+                                                          'triaxial')])
     # biggest first
     jobs.sort(key=lambda j: -int(np.prod(j[1][0] if isinstance(
         j[1][0], tuple) else j[1])))
